@@ -312,7 +312,7 @@ Definition cs_handle (dg : bytes) : res :=
   let buf := firstn 1024 dg in
   let head := firstn 4 (buf ++ [0;0;0;0]%N) in
   if eqb_bytes head [255;255;255;255]%N || eqb_bytes head [255;255;255;254]%N then
-    if (length buf <=? 4)%nat then RPanic 1 else ROk
+    if (length buf <=? 3)%nat then RPanic 1 else ROk
   else ROk.
 
 (* adb: one conn.Read per segment into a reused 4096-byte buffer (a short read leaves
